@@ -114,6 +114,9 @@ func decodeDac3FromData(data []byte) (Box, error) {
 	b.BitRateCode = byte(br.Read(5))
 	// 5 bits reserved follows
 	b.Reserved = byte(br.Read(5))
+	if err := br.AccError(); err != nil {
+		return nil, fmt.Errorf("dac3 box, payload of %d bytes is too short: %w", len(data), err)
+	}
 	return &b, nil
 }
 
